@@ -311,6 +311,6 @@ pub fn def() -> PropDef {
         level: "exploration",
         rule: "datasets of 2-11 (thorough 15) real Parquet chunks of 1-6 rows in hour buckets 0-71 h old, levels 0-3 (built through register_chunk + complete_compaction), occasionally a chunk with a different schema; configs l0_merge_threshold 1-4, level target sizes in {1 B, 1.5 KB, 6 KB, 1 GiB}, max_levels 1-4; histories of 1-5 (7) ops from {cycle by compactor 0 / 1 / both concurrently with a generated schedule over every store / catalog request, an optional fault {error before, error after, crash before, crash after} at a generated step, and optionally 310 s passing at a generated step while requests are parked; 310 s passing between cycles; restart of a crashed compactor}; both catalog back-ends. Invariant at every scheduling step: every initially stored row is reachable through a registered chunk whose object exists; after every cycle (crashed cycles count as ended): reachable multiset == initial multiset; every new chunk is one level above the highest-level chunk whose rows it holds. Non-trivial = a compaction was published, or a cycle was interrupted after it had uploaded a merged object.",
         assumptions: &["rows inside the retention window (<= 3 days old, retention 90 days)", "lease expiry = stored instants shifted by 310 s (ETag bump forces in-flight RMWs to restart)", "LocalMetadataClient sits behind a per-call gate: each trait call is atomic"],
-        subs: || vec![Box::new(Sub::<Case> { name: "history", cases: |t| t.scale(10_000, 6), strategy, exec })],
+        subs: || vec![Box::new(Sub::<Case> { name: "history", cases: |t| t.scale(20_000, 5), strategy, exec })],
     }
 }
